@@ -299,6 +299,18 @@ void Ym2612Private::doStaticInit(void)
 	memset(NULL_RATE, 0, sizeof(NULL_RATE));
 }
 
+// Build the static tables while the program starts: chips created later, on any thread, only read them
+static struct Ym2612StaticTables
+{
+	Ym2612StaticTables()
+	{
+		if (!Ym2612Private::isInit) {
+			Ym2612Private::isInit = true;
+			Ym2612Private::doStaticInit();
+		}
+	}
+} s_ym2612StaticTables;
+
 /*****************************************
  * Functions for calculating parameters. *
  *****************************************/
